@@ -33,7 +33,9 @@ from common.shard import ShardResult, run_shards
 
 PID = "C17"
 MODULES = ["Spydr.Names.Model", "Spydr.Names.ModelOld", "Spydr.Names.ModelObs", "Spydr.Names.Spec",
-           "Spydr.Names.Lemmas", "Spydr.Names.LemmasKey", "Spydr.Names.LemmasPass", "Spydr.Names.Props.C17"]
+           "Spydr.Names.Lemmas", "Spydr.Names.LemmasKey", "Spydr.Names.LemmasPass", "Spydr.Names.Props.C17",
+           # bridge to the EDIF engine's model (imports Spydr.Edif.*): C17's last clause
+           "Spydr.Names.LemmasBridge", "Spydr.Names.Props.C17Bridge", "Spydr.Names.LemmasBridgeNet", "Spydr.Names.Props.C17Export"]
 THEOREMS = [
     "Spydr.Names.makeValid_legal",
     "Spydr.Names.makeValid_fresh",
@@ -51,6 +53,16 @@ THEOREMS = [
     "Spydr.Names.pinned_violates_legal_length",
     "Spydr.Names.pinned_violates_legal_suffix",
     "Spydr.Names.unrepaired_violates_netIdents",
+    # bridge: pre-pass output => naming clauses of Edif.WFNet => (edif_roundtrip_text) the written text reads back with the original names
+    "Spydr.Names.Bridge.checkEdifIdentifier_eq",
+    "Spydr.Names.Bridge.fromPrepass_named_distinct",
+    "Spydr.Names.Bridge.wfNet_of_prepass",
+    "Spydr.Names.Bridge.prepass_file_readable",
+    "Spydr.Names.Bridge.names_of_passNet",
+    "Spydr.Names.Bridge.view03_passNet",
+    "Spydr.Names.Bridge.export_readable",
+    "Spydr.Names.Bridge.passNet_naming_clauses",
+    "Spydr.Names.Bridge.bus_bit_identifier_can_be_too_long",
 ]
 
 SCOPES = ["libraries", "definitions", "ports", "cables", "instances"]
@@ -1602,9 +1614,12 @@ def run(ctx):
         "cables have at least one wire and a non-negative lower index; the net identifiers of a cell are read by a token scan of the written file (not through the re-read)",
     ]
     ctx.partial_notes = [
-        "partial: of the last clause of C17 ('the exported file is always readable again and the re-read netlist shows the original names') Lean proves "
-        "reread_name (the written name token reads back as identifier + original name when the name has no double quote, through the small reader model readName); "
-        "that the whole file parses is observed at run time on every generated netlist (sdn.compose + sdn.parse), not proved",
+        "last clause of C17 ('the exported file is always readable again and the re-read netlist shows the original names'): proved on the models by the bridge "
+        "export_readable (pre-pass output satisfies every naming clause of the EDIF engine's WFNet; with the residual clauses Edif.C03.edif_roundtrip_text gives a text the "
+        "model reader accepts with the view of the original netlist). Assumed there, not delivered by the pre-pass: names of siblings different and free of double quote/CR/LF, "
+        "a scalar net not named like a bus bit, a bus net not starting with a backslash, the per-wire identifier of a bus within 255 characters "
+        "(bus_bit_identifier_can_be_too_long: witness; open finding), and the structural clauses of WFNet. The real reader/writer are tied to those models by the edif engine; "
+        "this engine still runs sdn.compose + sdn.parse on every generated netlist",
     ]
     lean.check_obligations(ctx, "Spydr/Names", MODULES, ["drv_names"], "Spydr/Names/Audit.lean", THEOREMS)
     if not os.path.exists(os.path.join(lean.LEAN, ".lake", "build", "bin", "drv_names")):
